@@ -138,6 +138,9 @@ def sock_scripts(work, maxq):
                 model.append(min(a[1], cur["q"][a[0] - 1]))
             cur = g.nodes[v]
         scripts.append({"run": k, "steps": out, "model": model})
+    # one fixed script on top of the toured ones: fourteen MSG_DONTWAIT datagrams to a receiver nobody reads - the
+    # queue (net.unix.max_dgram_qlen) fills up and the send flag decides between -EAGAIN and blocking for ever
+    scripts.append({"run": len(scripts), "steps": [["dsend"]] * 14, "model": [None] * 14})
     return res, g.nedges, scripts
 
 
@@ -368,7 +371,7 @@ def run(tier):
                 sock_stats["steps_run"] += 1
                 want = scripts[r["run"]]["model"][r["b"]]
                 got = r["direct"][0]["res"]
-                if (want == "fd" and got < 0) or (want != "fd" and got != want):
+                if want is not None and ((want == "fd" and got < 0) or (want != "fd" and got != want)):
                     sock_stats["steps_where_direct_call_differs_from_model"] += 1
                 nontrivial.add((r["subs"][0]["op"], json.dumps(r["step"]), got if got < 0 else 0))
             if r["ev"] == "aborted":
